@@ -305,7 +305,8 @@ def world_valid(case):
 
 def world_regimes(case):
     """for the histogram: what kinds of searches with a target the case holds"""
-    tags = {"dijkstra": 0, "dijkstra_while_another_is_astar": 0, "astar_weight_0": 0, "astar_consistent": 0, "astar_approx": 0}
+    tags = {"dijkstra": 0, "dijkstra_while_another_is_astar": 0, "astar_weight_0": 0, "astar_consistent": 0, "astar_approx": 0,
+            "astar_no_target": 0}
     S = {}
     for k, op in case["ops"]:
         if op[0] == "c":
@@ -326,6 +327,8 @@ def world_regimes(case):
                 tags["astar_consistent"] += 1
             else:
                 tags["astar_approx"] += 1
+        elif (op[0] in "lap" or (op[0] == "r" and op[2] is None)) and S[k]["mode"] == 1:
+            tags["astar_no_target"] += 1      # list form / all_shortest_distances / prepare / run_routing_forward(s) on an A* object: heuristic 0
     return tags
 
 
@@ -795,6 +798,23 @@ def enum_families(tier):
     return out
 
 
+def enum_geo(tier):
+    """exhaustive small scope of the GEOMETRIC extraction: three nodes at x = 0, 1, 2 on a line, every ordered list of two edges over
+    {src, tgt} x orientations {-1, 0, 1} (weight 1; thorough: weights {0, 1, 2} on the first edge), and on each of these networks every
+    centre in {0, 1/2, 1, 2} x every radius in {0, 1/2, 1, 2}: 16 extractions, each probed on every ordered pair of its nodes."""
+    out = []
+    al = [(a, b, o) for a in range(3) for b in range(3) for o in (-1, 0, 1)]
+    for w0 in ((1,) if tier == "quick" else (0, 1, 2)):
+        for e0 in al:
+            for e1 in al:
+                ops = [[0, ["c"]], [0, ["e", 0, e0[0], e0[1], w0, e0[2]]], [0, ["e", 1, e1[0], e1[1], 1, e1[2]]]]
+                for x in (0, "1/2", 1, 2):
+                    for rad in (0, "1/2", 1, 2):
+                        ops.append([0, ["g", [x, 0, 0], rad]])
+                out.append({"kind": "world", "ex": 1, "nets": [{"n": 3, "pos": [[0, 0], [1, 0], [2, 0]]}], "ops": ops})
+    return out
+
+
 class SessRunner:
     """one real `Network` object and what the caller holds (the Node objects handed in, a dictionary passed as
     output_dict); `call(op)` performs one op of the session forms above and returns its result record(s)"""
@@ -967,6 +987,7 @@ class P(Prop):
         (M, "TV.C06.load_prep_reads_what_save_prep_wrote", "for every file name load_prep reads the path numpy's save wrote (extension added by both when missing, names shorter than four characters, '.npy' itself)"),
         (M, "TV.C06.save_load_roundtrip", "save_prep(f), then any calls (searches, further prepare, new edges, other files), then load_prep(f or f with/without .npy): DISTANCES is the table saved, prepared_shortest_distance / has_prepared_shortest_distance answer for every pair what they answered when save_prep was called"),
         (M, "TV.C06.save_then_load_is_identity", "save_prep(f) immediately followed by load_prep(f) leaves the object as it was: the one-step model used by the world and family streams is the composition of the two calls"),
+        (M, "TV.C06.world_sub_network_geometric", "in any state of any program over several Network objects, sub_network(ENUCoords, cut, GEOMETRIC) on an object returns the edges with an end within cut of the centre and leaves the object as it was; distances on the returned network are weights of walks of the object's graph through kept edges, never below the object's own distances"),
         (M, "TV.C06.search_starts_clean", "__resetFlags + source.poids = 0 yields the initial labelling whatever flags earlier calls left on the nodes"),
         (M, "TV.C06.session_invariant", "after any sequence of addNode / addEdge / searches / all_shortest_distances / prepare / sub_network calls the object satisfies the session invariant"),
         (M, "TV.C06.session_answers_pure", "in any state reached by any call sequence every call answers with the pure function of the current graph (no trace of earlier searches)"),
@@ -1100,6 +1121,9 @@ class P(Prop):
         s.append("families (networks sharing their Node objects): the two-way unit path 0-1-2%s as network A, B = A.sub_network(s0, c0) kept, for every s0 in {0,1,2} and c0 in {0, 1, none}; "
                  "every sequence of three searches in the patterns A B A and B A B, each any list-form or pair-form shortest_distance on nodes the network holds (%d cases)"
                  % (("", 6768) if tier == "quick" else (", the one-way path 0->1->2 and a path with a zero-weight and a reverse-oriented edge", len(enum_families("thorough")))))
+        s.append("sub_network(.., 'GEOMETRIC'): nodes at x = 0, 1, 2 on a line, every ordered pair of edges over {src,tgt} x orientations {-1,0,1} "
+                 "(weights 1%s): %d networks x every centre in {0, 1/2, 1, 2} x every radius in {0, 1/2, 1, 2}, every ordered pair of nodes of each extract probed"
+                 % (("", 729) if tier == "quick" else ("; first edge 0, 1 or 2", 2187)))
         s.append("heapq: all lists of 0..%d tuples over priorities {0,1} x keys {0,1} (%d lists): heapify, then heappop until IndexError, the list compared after every step"
                  % ((5, 1365) if tier == "quick" else (6, 5461)))
         return s
@@ -1179,6 +1203,8 @@ class P(Prop):
         out += enum_families(tier)
         for _ in range(1500 if tier == "quick" else 25000):
             out.append(random_family(rng))
+        # GEOMETRIC sub_network, exhaustively on three collinear nodes
+        out += enum_geo(tier)
         # several Network objects with their own routing settings (setRoutingMethod / setAStarWeight), calls interleaved
         for _ in range(1500 if tier == "quick" else 25000):
             out.append(random_world(rng))
